@@ -29,6 +29,17 @@ BUSY = ("prepare_all", "measure_all")
 
 CALLBACK = None  # set by the simulator: CALLBACK(gate_name, args)
 
+# Which of four conventions the parametrised matrices follow.  The simulator switches it
+# between runs / operations, so that "the same gate name with the same arguments" does not
+# always mean the same matrix (anything the library memoises across calls becomes visible).
+# Emulator and reference read the same functions, hence the same variant.
+VARIANT = 0
+
+
+def _v(t):
+    v = VARIANT
+    return (-t if v & 1 else t) + (0.37 if v & 2 else 0.0)
+
 
 def _randu(k, seed):
     rs = np.random.RandomState(seed)
@@ -43,16 +54,19 @@ _U3 = _randu(3, 11)
 
 
 def _rx(t):
+    t = _v(t)
     c, s = math.cos(t / 2), math.sin(t / 2)
     return np.array([[c, -1j * s], [-1j * s, c]])
 
 
 def _ry(t):
+    t = _v(t)
     c, s = math.cos(t / 2), math.sin(t / 2)
     return np.array([[c, -s], [s, c]], dtype=complex)
 
 
 def _rz(t):
+    t = _v(t)
     return np.array([[np.exp(-0.5j * t), 0], [0, np.exp(0.5j * t)]])
 
 
@@ -76,6 +90,7 @@ def _cx():
 
 
 def _crz(t):
+    t = _v(t)
     m = np.eye(4, dtype=complex)
     # control = bit0; applies Rz(t) on target (bit1) when control is 1
     m[1, 1] = np.exp(-0.5j * t)
@@ -84,6 +99,7 @@ def _crz(t):
 
 
 def _ms(phi, theta):
+    theta = _v(theta)
     c, s = math.cos(theta / 2), math.sin(theta / 2)
     e = np.exp(1j * 2 * phi)
     m = np.zeros((4, 4), dtype=complex)
@@ -96,6 +112,7 @@ def _ms(phi, theta):
 
 
 def _mix(t):
+    t = _v(t)
     return _U2 @ np.diag([1, np.exp(1j * t), 1, 1])
 
 
